@@ -329,6 +329,16 @@ class GX:
                 out.append(t.b)
         return out
 
+    def within_inst(self, nid, insts):
+        """node lies in one of the given instances or in an instance inlined below one of them"""
+        g = self.g
+        i = g.nodes[nid].inst
+        while i is not None:
+            if i in insts:
+                return True
+            i = g.insts[i].parent
+        return False
+
     def within(self, nid, regex):
         """node lies in an inlined instance of a function matching regex (at any depth of the inlining chain)"""
         g = self.g
